@@ -6,9 +6,11 @@ import "net/http"
 
 // Verification seams (build tag "verif" only; add-only, no behaviour of their own).
 
-// VerifGate, when set, is called by a timer goroutine at the top of executeFailover /
-// executeFailback before it takes the controller lock. The conformance harness uses it
-// to hold a fired timer ("fired but not yet running") and release it deterministically.
+// VerifGate, when set, is called at the top of executeFailover / executeFailback before
+// the controller lock is taken (point "executeFailover" / "executeFailback") and again when
+// the function returns (point "...:exit"). The conformance harness uses the first call to
+// hold a fired timer ("fired but not yet running") and release it deterministically, and
+// the pair to know which executions are still under way (sleeping in the grace period).
 var VerifGate func(c *FailoverController, point string)
 
 func verifGate(c *FailoverController, point string) {
